@@ -20,6 +20,8 @@ Vals == << [n |-> "A1",    t |-> "1.1.1.1",                    v |-> V("", "NOER
            [n |-> "MX",    t |-> "NOERROR;MX;10 mx.test",      v |-> V("", "NOERROR", "MX", "10 mx.test")],
            [n |-> "SRV",   t |-> "NOERROR;SRV;1 2 3 srv.test", v |-> V("", "NOERROR", "SRV", "1 2 3 srv.test")],
            [n |-> "HTTPS", t |-> "NOERROR;HTTPS;1 . alpn=h3",  v |-> V("", "NOERROR", "HTTPS", "1 . alpn=h3")],
+           \* a record type without a value parser: the type is kept, the value is not
+           [n |-> "NS",    t |-> "NOERROR;NS;ns1.example",     v |-> V("", "NOERROR", "NS", "")],
            [n |-> "EMPTY", t |-> "",                           v |-> Empty] >>
 NV == Len(Vals)
 \* symbol k: value (k-1) \div 4 + 1, important iff bit 0, exception iff bit 1; the empty value only makes sense on exceptions
